@@ -505,6 +505,26 @@ def run(ctx):
     from ..lints import dtype_family_tests
     dtype_family_tests(ctx, ATOMS, "R2.dtype-family-test")
 
+    # flags and tables that a loop over the elements builds up are accumulated, not overwritten by the last element
+    from ..lints import loop_updates_kept
+    loop_updates_kept(ctx, ATOMS, "R1.loop-updates-kept", 5)
+    # an existing annotation category is only ever widened: it is cast to the requested dtype when every stored value fits into it
+    # (can_cast(existing, requested)) and left alone when the requested one fits into the existing one
+    from .. import facts as _facts
+    from ..exprnorm import spec as _spec
+    aa = s.func("_AtomArrayBase.add_annotation")
+    casts = [st for st in walk_local(aa) if isinstance(st, ast.Assign) and isinstance(st.value, ast.Call) and isinstance(st.value.func, ast.Attribute)
+             and st.value.func.attr == "astype"]
+    ctx.need(len(casts) == 1, "cast of an existing category in add_annotation")
+    ex = ast.unparse(casts[0].value.func.value)
+    known = _facts.facts_at(aa, casts[0])
+    keeps = [st for st in walk_local(aa) if isinstance(st, ast.Pass)]
+    ctx.ob("R1.annotation-dtype-widening", ATOMS, "_AtomArrayBase.add_annotation", f"{ex}.astype(dtype) only under np.can_cast({ex}.dtype, dtype)",
+           _spec(f"np.can_cast({ex}.dtype, dtype)") in known
+           and all(_spec(f"np.can_cast(dtype, {ex}.dtype)") in _facts.facts_at(aa, k) for k in keeps) and len(keeps) == 1,
+           "re-declaring a category must never narrow the stored values: cast when the existing dtype can be cast safely to the requested "
+           "one, keep the existing (more general) dtype when it is the other way round", casts[0].lineno)
+
     # ---------------- R3 slice(i, i + 1) ----------------------------------
     n_sl = 0
     for qual, f in s.funcs.items():
@@ -549,6 +569,9 @@ def run(ctx):
 
 
 MUTANTS = [
+    Mutant("concat-bonds-flag-overwritten", ATOMS, "        if element.bonds is not None:\n            has_bonds = True\n", "        has_bonds = element.bonds is not None\n", "R1.loop-updates-kept", "concatenate"),
+    Mutant("add-annotation-cast-direction", ATOMS, "        elif np.can_cast(self._annot[str(category)].dtype, dtype):\n", "        elif np.can_cast(dtype, self._annot[str(category)].dtype):\n",
+           "R1.annotation-dtype-widening"),
     Mutant("nan-tolerance-float64-only", ATOMS, "                if np.issubdtype(self._annot[name].dtype, np.floating)\n",
            "                if np.issubdtype(self._annot[name].dtype, float)\n", "R2.dtype-family-test"),
     Mutant("atom-coord-asarray", ATOMS, "        coord = np.array(coord, dtype=np.float32)\n", "        coord = np.asarray(coord, dtype=np.float32)\n", "R2.atom-owns-coord"),
